@@ -557,6 +557,20 @@ func frameName(i int, l Link) string {
 	return ""
 }
 
+// accessorPlace says where the accessor of a getter/setter link is defined (0 own literal, 1 literal
+// assigned to constructor.prototype, 2 Object.create chain of the returned depth, 3 defineProperty on
+// constructor.prototype, 4 defineProperty on the object itself).
+func accessorPlace(l Link) (place, depth int) {
+	return l.Var % 5, 1 + (l.Var/15)%3
+}
+
+// accessorRead says how it is reached: 0 `o.g`, 1 `o["g"]`, 2 identifier inside `with (o)`.
+func accessorRead(l Link) int { return (l.Var / 5) % 3 }
+
+func isWithAccess(l Link) bool {
+	return (l.Kind == "getter" || l.Kind == "setter") && accessorRead(l) == 2
+}
+
 func canRecurse(l Link) bool { return l.Kind == "decl" || l.Kind == "nexpr" || l.Kind == "aexpr" }
 
 // Render produces the program text and the expected trace. caught = the sibling program in which
@@ -719,14 +733,43 @@ func (r *renderer) define(w *writer, i int) {
 		w.emit(words(fmt.Sprintf("var O%d = { m : function N%d ( ) {", i+1, i+1)))
 		body()
 		w.emit(words("} , k : 2 } ;"))
-	case "getter":
-		w.emit(words(fmt.Sprintf("var O%d = { get g ( ) {", i+1)))
-		body()
-		w.emit(words("} } ;"))
-	case "setter":
-		w.emit(words(fmt.Sprintf("var O%d = { set s ( v ) {", i+1)))
-		body()
-		w.emit(words("} } ;"))
+	case "getter", "setter":
+		// where the accessor lives: own (literal / defineProperty) or on the prototype chain
+		// (constructor.prototype literal, Object.create chain of depth 1-3, defineProperty on a prototype)
+		o, k, pr := fmt.Sprintf("O%d", i+1), fmt.Sprintf("K%d", i+1), fmt.Sprintf("P%d", i+1)
+		lit, key, fun := "get g ( ) {", `"g"`, "get : function ( ) {"
+		if l.Kind == "setter" {
+			lit, key, fun = "set s ( v ) {", `"s"`, "set : function ( v ) {"
+		}
+		place, depth := accessorPlace(l)
+		r.feat["accessor-read:"+[]string{"dot", "bracket", "with"}[accessorRead(l)]] = true
+		r.feat["accessor:"+[]string{"own-literal", "ctor-prototype", "object-create", "defineProperty-prototype", "defineProperty-own"}[place]] = true
+		switch place {
+		case 0:
+			w.emit(words("var " + o + " = { " + lit))
+			body()
+			w.emit(words("} } ;"))
+		case 1:
+			w.emit(words("function " + k + " ( ) { } " + k + " . prototype = { k : 1 , " + lit))
+			body()
+			w.emit(words("} } ; var " + o + " = new " + k + " ( ) ;"))
+		case 2:
+			w.emit(words("var " + pr + " = { " + lit))
+			body()
+			chain := pr
+			for d := 0; d < depth; d++ {
+				chain = "Object . create ( " + chain + " )"
+			}
+			w.emit(words("} } ; var " + o + " = " + chain + " ;"))
+		case 3:
+			w.emit(words("function " + k + " ( ) { } Object . defineProperty ( " + k + " . prototype , " + key + " , { " + fun))
+			body()
+			w.emit(words("} } ) ; var " + o + " = new " + k + " ( ) ;"))
+		default:
+			w.emit(words("var " + o + " = { } ; Object . defineProperty ( " + o + " , " + key + " , { " + fun))
+			body()
+			w.emit(words("} , configurable : true } ) ;"))
+		}
 	}
 	if l.Kind == "bound" {
 		w.sep()
@@ -770,8 +813,20 @@ func (r *renderer) invoke(i int, at, end *Pos) (toks []tk, assign bool) {
 	case "sort":
 		return []tk{{s: "arr2", start: at}, t("."), t("sort"), t("("), t(fn), {s: ")", end: end}}, false
 	case "getter":
+		switch accessorRead(l) {
+		case 1:
+			return []tk{{s: o, start: at}, t("["), t(`"g"`), {s: "]", end: end}}, false
+		case 2: // identifier resolved through a with scope (a statement, flagged by the caller)
+			return []tk{t("with"), t("("), t(o), t(")"), t("{"), t("tmp"), t("="), {s: "g", start: at, end: end}, t(";"), t("}")}, false
+		}
 		return []tk{{s: o, start: at}, t("."), {s: "g", end: end}}, false
 	case "setter":
+		switch accessorRead(l) {
+		case 1:
+			return []tk{{s: o, start: at}, t("["), t(`"s"`), t("]"), t("="), {s: "1", end: end}}, true
+		case 2:
+			return []tk{t("with"), t("("), t(o), t(")"), t("{"), {s: "s", start: at}, t("="), {s: "1", end: end}, t(";"), t("}")}, false
+		}
 		return []tk{{s: o, start: at}, t("."), t("s"), t("="), {s: "1", end: end}}, true
 	case "bound":
 		return []tk{{s: fmt.Sprintf("B%d", i+1), start: at}, t("("), {s: ")", end: end}}, false
@@ -983,7 +1038,7 @@ func (r *renderer) context(w *writer, k int) {
 		default:
 			var at, end Pos
 			toks, assign := r.invoke(k, &at, &end)
-			st = statement(w, l.Stmt, toks, assign, false)
+			st = statement(w, l.Stmt, toks, assign, isWithAccess(l))
 			exact, wild, drop := true, "", ""
 			switch l.Kind {
 			case "getter", "setter":
